@@ -181,3 +181,48 @@ prop("C02", bounds=LOCK_BOUNDS + "; sequential shadow lemma: reader open across 
          HS(200, "txfile.VerifLockProtocol", "exclusive section (header switch) excludes shared sections", "2R+2W, 1 preemption",
            quick={"params": {"readers": 2, "writers": 2, "preempt": 1}}, thorough={"params": {"readers": 2, "writers": 2, "preempt": 2}, "max_paths": 400000, "budget": "900s"}),
      ])
+
+# ------------------------------------------------------------------ pq
+PQ_BOUNDS = ("real pq.Queue/Writer/Reader/ACK over the real txfile.File on the simulated disk, page size 1024 (996 event bytes per page), bounded file of 64 pages, default write buffer (5 pages); "
+             "event sizes chosen by the solver among the boundary sizes 992 (ends exactly at the page end), 988 (exactly one event header left), 1988 (ends at the end of the 2nd page), 993, 1, 989, 991, 2009 "
+             "(quick: the first 3-4), each event written in 1..2 Write calls, symbolic Flush positions, read buffers of 1 / 7 / 996 / 4096 bytes")
+PQ_OUT = "other event sizes, more than 2-3 events per scenario, page sizes other than 1024, larger write buffers, queues embedded in an application file (non-standalone delegate)"
+
+CHECKS["C15"]["harnesses"].append(
+    H("pq.VerifQueueMisuse", "pq: reader without Begin (InactiveTx), double Begin, ACK too many / on empty queue, every Reader/Writer/ACK call on a closed queue incl. objects handed out after Close", "9 cases x 7 closed-queue cells"))
+CHECKS["C15"]["bounds"] += "; pq: queue with 2 flushed events, 16 misuse cells"
+
+prop("C05", bounds=PQ_BOUNDS, outside=PQ_OUT,
+     harnesses=[
+         H("pq.VerifQueueFIFO", "every flushed event is delivered exactly once, in order, byte-identical; Next sizes; Read never merges events; nothing beyond the last flushed event; counters",
+           "2 events x 4 sizes (quick) / 3 events x 4 sizes, 2 events x 8 sizes (thorough)",
+           quick={"params": {"events": 2, "nsizes": 4}}, thorough={"params": {"events": 3, "nsizes": 4}, "max_paths": 400000, "budget": "1500s"}),
+         H("pq.VerifQueueFIFO", "same, all 8 boundary sizes, reads interleaved with writes", "2 events x 8 sizes", tiers=("thorough",),
+           thorough={"params": {"events": 2, "nsizes": 8, "readearly": 1}, "max_paths": 400000, "budget": "1500s"}),
+         H("pq.VerifQueueReopen", "close/reopen at a symbolic point keeps order and content", "2 events x 3 sizes", quick={"params": {"events": 2, "nsizes": 3}},
+           thorough={"params": {"events": 2, "nsizes": 6}, "max_paths": 400000, "budget": "1500s"}),
+     ])
+
+prop("C06", bounds=PQ_BOUNDS + "; crash at every index of the I/O log of a flush (1-2 events) / ACK(1) / ACK(2) after a committed prefix of 2 events, loss patterns all kept / all lost / one lost / one kept",
+     outside=PQ_OUT + "; torn writes (covered for txfile by C01)",
+     harnesses=[
+         H("pq.VerifQueueCrash", "recovered queue == completed flushes (+ in-progress flush, all or nothing) - completed ACKs (+ in-progress ACK); reading resumes at the first un-ACKed event; queue usable",
+           "3 sizes (quick) / 5 sizes (thorough)", quick={"params": {"nsizes": 3}}, thorough={"params": {"nsizes": 5}, "max_paths": 400000, "budget": "1500s"}),
+         H("pq.VerifQueueReopen", "clean reopen at a symbolic point: exactly flushed - ACKed events remain, reading resumes at the first un-ACKed event", "2 events x 3 sizes",
+           quick={"params": {"events": 2, "nsizes": 3}}, thorough={"params": {"events": 2, "nsizes": 6}, "max_paths": 400000, "budget": "1500s"}),
+     ])
+
+prop("C12", bounds="bounded file of 64 pages, events of 2009 / 993 / 4980 bytes appended until the queue reports an error, drained with ACK steps of 1 or 2, refilled (2 cycles)",
+     outside=PQ_OUT + "; the 'unbounded total traffic' clause is argued from the second cycle reaching the first cycle's count (space after a full ACK is independent of history)",
+     harnesses=[
+         H("pq.VerifQueueFull", "full file: error instead of loss, read+ACK succeed, buffered events flushed later in order, space bound after full ACK, second fill cycle as large as the first", "3 sizes x 2 ACK steps x 2 cycles",
+           thorough={"params": {"wbuf": 8192}}),
+     ])
+
+prop("C17", bounds=PQ_BOUNDS, outside=PQ_OUT,
+     harnesses=[
+         H("pq.VerifQueueFIFO", "Pending == Active == flushed - ACKed at every quiescent point, Reader.Available == flushed - consumed, Flushed/ACKed callbacks report the exact totals", "2 events x 4 sizes",
+           quick={"params": {"events": 2, "nsizes": 4}}, thorough={"params": {"events": 3, "nsizes": 4}, "max_paths": 400000, "budget": "1500s"}),
+         H("pq.VerifQueueReopen", "counters after reopen", "2 events x 3 sizes", quick={"params": {"events": 2, "nsizes": 3}}, thorough={"params": {"events": 2, "nsizes": 6}, "max_paths": 400000, "budget": "1500s"}),
+         H("pq.VerifQueueFull", "counters on a full file and after draining", "3 sizes"),
+     ])
